@@ -6,7 +6,19 @@ extraction in C01/C02/C04/C10/C12, both builds are proved equal to one specifica
  * kind F contracts of C01 (vector op == scalar overload, bitwise): the scalar overload is pure code even in the SIMD build,
    so this is "SIMD result == pure result" bit-for-bit for the component-wise, integer, bitwise, comparison, selection,
    rounding-to-integer and single-rounded classes, and for branch decisions (kind F contracts of C12: refract zero, faceforward);
- * kind R contracts of C02/C04/C10/C12: multi-term float expressions equal the textbook definition as real functions."""
+ * kind R contracts of C02/C04/C10/C12: multi-term float expressions equal the textbook definition as real functions;
+ * where the pure *vector* code is not the scalar overload (fma: a * b + c against std::fma) or the SIMD code replaces an exact
+   operation by a hardware approximation (normalize: rsqrtps), a cross-build relational contract (rel=) compares the SIMD
+   extraction with the GLM_FORCE_PURE extraction of the same shim at the same ISA flags.
+
+Adaptations of the reused clauses (each with its reason, none weakens what the property statement demands):
+ * float results are compared with cspec_same32 (same bits, or both NaN): which NaN (sign, payload) an operation returns is not a
+   value (HOWTO: "NaN results: speak of x != x, not of NaN bits"); MINPS/MAXPS/ANDPS and the scalar code legitimately differ there;
+ * C01 spells the decrement clause SPEC_FSUB32(a, 1.0f); clang canonicalises x - 1.0f to fadd x, -1.0f in BOTH builds, and
+   IEEE x - c == x + (-c), so the clause is re-spelt SPEC_FADD32(a, -1.0f) (same value, same abstraction as the code);
+ * abs(ivec4): the pure code (x ^ (x >> 31)) - (x >> 31) overflows (undefined) for INT_MIN, there is no pure value to compare
+   with: requires x != INT_MIN (the documented domain of abs).
+Everything that is not claimed is listed in EXCLUDE with its reason and repeated in P.not_covered."""
 import importlib, re, copy
 from engine import Prop
 from vlib import Contract
@@ -14,17 +26,80 @@ from vlib import Contract
 P = Prop('C03', 'SIMD-intrinsic builds return the same results as the pure C++ path')
 ISA = {'sse2': ['-msse2'], 'sse41': ['-msse4.1'], 'avx2fma': ['-mavx2', '-mfma']}
 SIMD_DEFS = ['GLM_FORCE_INTRINSICS', 'GLM_FORCE_DEFAULT_ALIGNED_GENTYPES']
-# (module, regex over contract function names, ISA levels in the per-change tier)
+# (module, regex over contract function names, ISA levels in the per-change tier, regex of the functions that reach SIMD code: only
+#  those are in the per-change tier, the rest - scalars, vec2, double - is compiled under the SIMD configuration in the thorough tier)
 SOURCES = [
-    ('C01', r'_(f32|i32|u32)_.*_v[34]$|^glm_(any|all|not)_v[34]$|_(f32|i32)_v[34]$', ('sse2', 'sse41')),
-    ('C12', r'.', ('sse2', 'sse41', 'avx2fma')),
-    ('C10', r'(4x4|3x3)_f32$', ('sse2', 'avx2fma')),
-    ('C02', r'(m4x4|m3x3|4x4|3x3).*_f32$|_m4x4_v_f32$|_v_m4x4_f32$', ('sse2', 'avx2fma')),
-    ('C04', r'_f32$|_f$|f32', ('sse2',)),
+    ('C01', r'_(f32|i32|u32)_.*_v[34]$|^glm_(any|all|not)_v[34]$|_(f32|i32)_v[34]$', ('sse2', 'sse41'), r'.'),
+    ('C12', r'.', ('sse2', 'sse41', 'avx2fma'), r'_v[34]_f32$|^glm_(cross|cross_both_orders|mixedProduct)_f32$'),
+    ('C10', r'(4x4|3x3)_f32$', ('sse2', 'avx2fma'), r'.'),
+    ('C02', r'(m4x4|m3x3|4x4|3x3).*_f32$|_m4x4_v_f32$|_v_m4x4_f32$', ('sse2', 'avx2fma'), r'.'),
+    ('C04', r'_f32$|_f$|f32', ('sse2',), r'.'),
 ]
+# Obligations that are NOT claimed: (regex over the function name, regex over the ISA tag, reason).  Deterministic, by name.
+EXCLUDE = [
+    (r'^glm_(min|max|clamp)_(i32|u32)_', r'^sse2$',
+     'integer min/max/clamp of ivec4/uvec4 at SSE2: func_common_simd.inl uses _mm_min/max_epi32/_epu32 (SSE4.1) unconditionally, the instantiation '
+     'does not compile at -msse2 (compile-time defect, nothing to verify)'),
+    (r'^glm_fma_f32_vvv_v[34]$', r'.',
+     'fma(vec3/vec4) against the scalar overload: the pure vector code is a * b + c (two roundings) while the scalar overload is std::fma (one '
+     'rounding), so "vector == scalar overload" does not hold in the pure build either (C01); claimed instead: SIMD fma == pure vector fma, '
+     'bitwise (relational contracts glm_fma_f32_vvv_v3/v4 against the GLM_FORCE_PURE extraction)'),
+    (r'^glm_op_(div|mod)_(i32|u32)_', r'.',
+     'integer / and % of aligned ivec/uvec: no SIMD code in this tree (_mm_div_epi32 is MSVC-only; compute_vec_div/mod<.., true> forward to the '
+     'generic loop) and the z3/SAT portfolio does not decide the divider equivalence on the vectorised extraction within the tier timeouts'),
+    (r'^glm_op_mul_(i32|u32)_', r'^sse2$',
+     'integer * at SSE2 (_mm_mul_epu32 on even/odd lanes + shuffles): equivalence of the 32x32->64 multipliers with the 32-bit product is out of '
+     'reach of z3 and SAT within the timeouts (undecided, not refuted; the SSE4.1/AVX2 _mm_mullo_epi32 path is claimed in the thorough tier)'),
+    (r'^glm_dot_bits_v4_f32$', r'^sse2$',
+     'bit-exact evaluation order of dot(vec4): at SSE2 glm_vec1_dot adds (x*x+z*z)+(y*y+w*w), the pure code (x*x+y*y)+(z*z+w*w); the property '
+     'allows multi-term float expressions to differ by rounding, so the bitwise clause demands more than the property (the kind-R contract '
+     'glm_dot_v4_f32 is kept; at SSE4.1 (haddps) and AVX (dpps) the order is the pure one and the bitwise contract is claimed, thorough tier)'),
+    (r'^glm_normalize_v4_f32$', r'.',
+     'normalize(vec4) over the reals: glm_vec4_normalize multiplies by _mm_rsqrt_ps, a hardware approximation without real-arithmetic meaning '
+     '(not eligible); the defect itself - highp normalize uses the 12-bit approximation - is caught bit-level by the relational contract '
+     'glm_normalize_v4_f32 [rel] against the pure build'),
+]
+# expensive obligations measured on the SIMD extractions: thorough tier only (regex over the function name)
+SLOW = r'^glm_(mirrorRepeat|mirrorClamp)_f32_v_v4$|^glm_op_mul_(i32|u32)_|^glm_mix_f32_vv[vs]_v4$'
+
 P.reused = []
 P.skipped_sources = []
-for modname, rx, quick_isa in SOURCES:
+P.excluded = []
+
+
+def excluded(fn, isa):
+    for rx, irx, why in EXCLUDE:
+        if re.search(rx, fn) and re.search(irx, isa):
+            return why
+    return None
+
+
+def same32(e):
+    """bitwise float equality of a C01 clause -> same bits or both NaN"""
+    m = re.match(r'^ll2c_f32_bits\((out\[\d+\]|RESULT)\) == ll2c_f32_bits\((.*)\)$', e)
+    return 'cspec_same32(%s, %s)' % (m.group(1), m.group(2)) if m else e
+
+
+def adapt(modname, c2):
+    """clause adaptations described in the module docstring; returns new lists (the source contract is shared with its module)"""
+    ens = list(c2.ensures)
+    req = list(c2.requires)
+    if modname == 'C01':
+        ens = [(n, same32(e)) for n, e in ens]
+        if re.match(r'^glm_op_(pre|post)dec_f32_', c2.fn):
+            ens = [(n, re.sub(r'SPEC_FSUB32\((\w+), 1\.0f\)', r'SPEC_FADD32(\1, -1.0f)', e)) for n, e in ens]
+        if re.match(r'^glm_(fmin|fmax|fclamp)_f32_', c2.fn):
+            # C (F.10.9.2) and LLVM minnum/maxnum leave the sign of fmin/fmax(+0, -0) unspecified: the compiler may commute the operands of the
+            # vectorised call, so neither build has a defined zero sign there (the T-check tolerates it for the same reason): numeric equality
+            ens = [(n, e.replace('cspec_same32(', 'cspec_samev32(')) for n, e in ens]
+        if re.match(r'^glm_abs_i32_v_v\d$', c2.fn):
+            L = int(c2.fn[-1])
+            req.append(('not_int_min', ' && '.join('a%d != 0x80000000u' % i for i in range(L))))
+    c2.ensures, c2.requires = ens, req
+
+
+pure_builds = {}
+for modname, rx, quick_isa, simd_rx in SOURCES:
     try:
         m = importlib.import_module(modname)
     except Exception as e:
@@ -39,32 +114,68 @@ for modname, rx, quick_isa in SOURCES:
             b0 = Q.builds[c.build]
             if b0.mode != 'flat' or any(d.startswith('GLM_FORCE_') and d not in ('GLM_FORCE_QUAT_DATA_WXYZ',) for d in b0.defines):
                 continue
+            why = excluded(c.fn, isa)
+            if why:
+                P.excluded.append((c.fn, isa, why))
+                if not (modname == 'C01' and c.fn.startswith('glm_fma_')) and not (modname == 'C12' and c.fn.startswith('glm_normalize_v4')):
+                    continue
             if b0.tag not in bmap:
                 bmap[b0.tag] = P.build(b0.driver, 'flat', defines=list(b0.defines) + SIMD_DEFS, flags=list(b0.flags) + flags,
                                        tag='%s_%s_%s' % (modname.lower(), b0.tag, isa))
                 bmap[b0.tag].only = set()
-            if isa == 'sse2' and re.search(r'_(min|max|clamp)_(i32|u32)_', c.fn):
-                # func_common_simd.inl implements integer min/max/clamp with _mm_min/max_epi32/_epu32 (SSE4.1) unconditionally: that
-                # instantiation does not compile at -msse2 (compile-time defect, nothing to verify)
+            bs = bmap[b0.tag]
+            tier = c.tier if (isa in quick_isa and re.search(simd_rx, c.fn) and not re.search(SLOW, c.fn)) else 'thorough'
+            if why:
+                # SIMD extraction against the GLM_FORCE_PURE extraction of the same shim at the same ISA flags (bitwise, NaN == NaN)
+                key = (modname, b0.tag, isa)
+                if key not in pure_builds:
+                    pure_builds[key] = P.build(b0.driver, 'flat', defines=list(b0.defines) + ['GLM_FORCE_PURE'], flags=list(b0.flags) + flags,
+                                               tag='%s_%s_%s_pure' % (modname.lower(), b0.tag, isa))
+                    pure_builds[key].only = set()
+                pb = pure_builds[key]
+                bs.only.add(c.fn)
+                pb.only.add(c.fn)
+                s = b0.driver.shims[c.fn].view_sig()
+                args = ', '.join(nm for _, nm in s['ins'])
+                ens = []
+                for k, (t, on, cnt) in enumerate(s['outs']):
+                    for i in range(cnt):
+                        ens.append(('simd_%s_%d_is_pure_%s_%d' % (on, i, on, i), 'cspec_same32(%s[%d], R_%s__o%d_%d(%s))' % (on, i, c.fn, k, i, args)))
+                c2 = Contract(c.fn, '[SIMD %s vs GLM_FORCE_PURE] %s' % (isa, c.real), ensures=ens, build=bs.tag, rel=(pb.tag, [c.fn]), unwind=12,
+                              uf_float=('fmul', 'fdiv', 'fadd', 'fsub', 'sqrt'), timeout=300, tier=tier)
+                P.contracts.append(c2)
+                P.reused.append((modname, c.fn + ' [rel]', isa))
                 continue
-            bmap[b0.tag].only.add(c.fn)
+            bs.only.add(c.fn)
             for u in c.uses:
-                bmap[b0.tag].only.add(u)
+                bs.only.add(u)
             c2 = copy.copy(c)
-            c2.build = bmap[b0.tag].tag
+            c2.build = bs.tag
             c2.real = '[SIMD %s] %s' % (isa, c.real)
-            c2.tier = c.tier if isa in quick_isa else 'thorough'
+            c2.tier = tier
+            adapt(modname, c2)
             P.contracts.append(c2)
             P.reused.append((modname, c.fn, isa))
 
 P.level_text = ('the value contracts of C01 (vector op == scalar overload, bitwise), C12/C10/C02/C04 (textbook definitions over the reals, plus the '
                 'bit-exact branch facts of C12) are enforced on SIMD extractions (GLM_FORCE_INTRINSICS + aligned default types) at SSE2, SSE4.1 and '
-                'AVX2+FMA; the same contracts hold on the pure extraction in those properties, so both builds equal one specification')
-P.level_note = ('x86 intrinsics that survive in the IR (min/max.ps, cmp.ss, hadd.ps, dpps, round.ps) are modelled from the Intel SDM pseudo-code '
+                'AVX2+FMA; the same contracts hold on the pure extraction in those properties, so both builds equal one specification; fma and '
+                'normalize(vec4) are compared directly with the GLM_FORCE_PURE extraction')
+P.level_note = ('x86 intrinsics that survive in the IR (min/max.ps, cmp.ss, hadd.ps, dpps, round.ps, psign.d) are modelled from the Intel SDM pseudo-code '
                 '(trusted); rsqrt/rcp approximations are uninterpreted (lowp only); kind R part: over the reals (machine arithmetic treated as '
-                'mathematical), so "a few units of rounding" is not bounded; ISA levels other than the three compiled are not covered')
-P.technique = 'CBMC code contracts + real-arithmetic contracts re-enforced on SIMD extractions of the same drivers'
+                'mathematical), so "a few units of rounding" is not bounded; a float result that is NaN in both builds counts as equal whatever its '
+                'sign/payload; ISA levels other than the three compiled are not covered')
+P.technique = 'CBMC code contracts + real-arithmetic contracts re-enforced on SIMD extractions of the same drivers; cross-build relational contracts'
 P.design_ref = 'DESIGN.md section 6 C03 and section 10'
-P.assumptions = ['machine arithmetic treated as mathematical for the kind-R obligations', 'x86 intrinsic models (Intel SDM)']
-P.not_covered = ['integer clamp (ivec4/uvec4) at SSE2: func_common_simd.inl uses SSE4.1 intrinsics unconditionally and does not compile at -msse2', 'SSE3/SSSE3/SSE4.2/AVX-only levels (select among the same code paths)', 'double / dvec4 AVX paths', 'rcp/rsqrt accuracy (relative error 2^-11)',
-                 'size of the rounding difference of multi-term expressions', 'NEON'] + ['source module not available: ' + x for x in P.skipped_sources]
+P.assumptions = ['machine arithmetic treated as mathematical for the kind-R obligations', 'x86 intrinsic models (Intel SDM)',
+                 'MXCSR in its default state (round to nearest, no FTZ/DAZ)']
+_why = {}
+for fn, isa, why in P.excluded:
+    _why.setdefault(why, set()).add(isa)
+P.not_covered = ['%s [%s]' % (why, ','.join(sorted(isas))) for why, isas in _why.items()] + [
+    'SSE3/SSSE3/SSE4.2/AVX-only levels (select among the same code paths)', 'double / dvec4 AVX paths (compiled and checked only in the thorough tier through the f64 contracts of C12)',
+    'rcp/rsqrt accuracy (relative error 2^-11) of the lowp paths', 'size of the rounding difference of multi-term expressions',
+    'integer SIMD kernels without a reused contract: bitfieldReverse/bitCount(uvec4) (func_integer_simd.inl), glm_i128_interleave (simd/integer.h)',
+    'operator==/!= of aligned vec3/vec4 and SIMD swizzle operators (no contract of C01/C17 is reused for them)',
+    'GCC: -ffp-contract=fast fuses the _mm_mul_ps/_mm_add_ps pairs at -mfma; the extraction is clang-14 (no contraction across intrinsics)',
+    'NEON'] + ['source module not available: ' + x for x in P.skipped_sources]
